@@ -138,6 +138,44 @@ Proof.
   - unfold str in *. rewrite Hstrip. destruct (hdr t); [congruence|discriminate].
 Qed.
 
+(* explicit empty cells to the right of the table (columns without header) make openpyxl report
+   a wider grid, None-filled: the reader returns the same table *)
+Definition widen (k : nat) (grid : list (list xcell)) : list (list xcell) :=
+  map (fun r => r ++ repeat None k) grid.
+
+Theorem xlsx_sheet_stray t k :
+  hdr t <> [] -> Forall (fun s => s <> []) (hdr t) -> rect t -> no_empty_row t ->
+  read_xlsx_sheet (widen k (xl_grid t)) = Ok (lift_table (tr_table t)).
+Proof.
+  intros Hh Hne Hr Hrows. unfold read_xlsx_sheet, xl_grid, widen. rewrite package_rows_hdr by exact Hh.
+  cbn [map xlsx_import_sheet]. rewrite set_headers_empty.
+  set (hx := map xl_cell (hdr t)).
+  set (rx := map (fun r : list xcell => r ++ repeat None k) (map (map xl_cell) (rws t))).
+  assert (Hrx : Forall (fun r => length r = length (hx ++ repeat None k)) rx).
+  { unfold rx, hx. rewrite map_map. apply Forall_map. revert Hr. unfold rect. apply Forall_impl. intros r Hlen.
+    rewrite !app_length, !map_length, Hlen. reflexivity. }
+  rewrite xlsx_import_rect; [|constructor|exact Hrx]. cbn [app].
+  assert (Hsome : hx = map Some (map translate (hdr t))).
+  { unfold hx. rewrite map_map. apply map_ext_in. intros s Hin. rewrite Forall_forall in Hne. apply xl_cell_nonempty, Hne, Hin. }
+  assert (Hstrip : strip_none (hx ++ repeat None k) = hx).
+  { rewrite strip_none_repeat. apply strip_none_all_some. rewrite Hsome. apply Forall_map. apply Forall_forall. intros s _. discriminate. }
+  assert (Hhx : hx <> []).
+  { unfold hx. destruct (hdr t); [congruence|discriminate]. }
+  pose proof (sanitize_imported (mkT (hx ++ repeat None k) rx) Hrx) as E. cbn [hdr rws] in E.
+  rewrite Hstrip in E. specialize (E Hhx).
+  etransitivity; [exact E|]. clear E.
+  unfold lift_table, tr_table. cbn [hdr rws]. f_equal. f_equal; [exact Hsome|].
+  assert (Em : map (sanitize_row (length hx)) rx = map (map translate) (rws t)).
+  { unfold rx. rewrite !map_map. apply map_ext_in. intros r Hin. unfold sanitize_row. rewrite map_app, map_map.
+    rewrite (map_ext _ _ cell_text_xl_cell).
+    assert (El : length hx = length (map translate r)).
+    { unfold hx. rewrite !map_length. symmetry. unfold rect in Hr. rewrite Forall_forall in Hr. apply Hr, Hin. }
+    rewrite El, firstn_app, firstn_all, Nat.sub_diag. cbn [firstn]. apply app_nil_r. }
+  transitivity (filter keep_row (map (map translate) (rws t))); [f_equal; exact Em|].
+  apply filter_id. apply Forall_map. revert Hrows. unfold no_empty_row. apply Forall_impl.
+  exact keep_row_translate.
+Qed.
+
 (* ================================================================== one sheet, JSON *)
 
 Lemma rect_tr_table t : rect t -> rect (tr_table t).
